@@ -118,12 +118,14 @@ structure Shr (k k' : K) : Prop where
   sfk : k'.impls.map Impl.sfk = k.impls.map Impl.sfk
   nact : k'.actors.length = k.actors.length
   pend : ∀ a, PendFr (k.actor a).pending (k'.actor a).pending
+  wd : ∀ a, (k.actor a).wannadie = true → (k'.actor a).wannadie = true
+  wait : ∀ a, (k.actor a).waiting = [] → (k'.actor a).waiting = []
 
-theorem Shr.refl (k : K) : Shr k k := ⟨List.Sublist.refl _, List.Sublist.refl _, rfl, rfl, rfl, fun _ => Or.inl rfl⟩
+theorem Shr.refl (k : K) : Shr k k := ⟨List.Sublist.refl _, List.Sublist.refl _, rfl, rfl, rfl, fun _ => Or.inl rfl, fun _ h => h, fun _ h => h⟩
 
 theorem Shr.trans {k1 k2 k3 : K} (h1 : Shr k1 k2) (h2 : Shr k2 k3) : Shr k1 k3 :=
   ⟨h2.timers.trans h1.timers, h2.heap.trans h1.heap, h2.nextT.trans h1.nextT, h2.sfk.trans h1.sfk,
-   h2.nact.trans h1.nact, fun a => (h1.pend a).trans (h2.pend a)⟩
+   h2.nact.trans h1.nact, fun a => (h1.pend a).trans (h2.pend a), fun a h => h2.wd a (h1.wd a h), fun a h => h2.wait a (h1.wait a h)⟩
 
 theorem Shr.nimpl {k k' : K} (h : Shr k k') : k'.impls.length = k.impls.length := by
   have := congrArg List.length h.sfk; simpa using this
@@ -144,38 +146,49 @@ theorem Shr.finish {k k' : K} (h : Shr k k') (i : Nat) : (k'.impl i).finish = (k
 theorem Shr.kind {k k' : K} (h : Shr k k') (i : Nat) : (k'.impl i).kind = (k.impl i).kind := by
   have := h.impl_sfk i; unfold Impl.sfk at this; injection this
 
+/-- side condition of `shr_setActor` for a record update -/
+macro "fr_side" : tactic =>
+  `(tactic| (intro _; first | exact ⟨Or.inl rfl, fun h => h, fun h => h⟩ | exact ⟨Or.inr (Or.inl rfl), fun h => h, fun h => h⟩
+                            | exact ⟨Or.inl rfl, fun _ => rfl, fun h => h⟩ | exact ⟨Or.inr (Or.inl rfl), fun _ => rfl, fun h => h⟩
+                            | exact ⟨Or.inl rfl, fun h => h, fun h => by simp [h]⟩))
+
 /-- proves `Shr k k'` when k' is k after `setImpl` / `setActor` / record updates that filter heap or timers -/
 macro "shr_tac" : tactic =>
-  `(tactic| (refine ⟨?_, ?_, ?_, ?_, ?_, ?_⟩ <;> (try simp [K.setImpl, K.setActor, K.timerRemove, upd_length, K.actor]) <;>
-             (repeat rw [map_upd_inv]) <;> (try (intro _; first | rfl | exact Or.inl rfl))))
+  `(tactic| (refine ⟨?_, ?_, ?_, ?_, ?_, ?_, ?_, ?_⟩ <;> (try simp [K.setImpl, K.setActor, K.timerRemove, upd_length, K.actor]) <;>
+             (repeat rw [map_upd_inv]) <;> (try (intro _; first | rfl | exact Or.inl rfl | exact fun h => h))))
 
 theorem shr_setActor (k : K) (a : Nat) (f : Actor → Actor)
-    (hf : ∀ x, PendFr x.pending (f x).pending) : Shr k (k.setActor a f) :=
+    (hf : ∀ x, PendFr x.pending (f x).pending ∧ (x.wannadie = true → (f x).wannadie = true) ∧
+      (x.waiting = [] → (f x).waiting = [])) :
+    Shr k (k.setActor a f) :=
   ⟨List.Sublist.refl _, List.Sublist.refl _, rfl, rfl, by simp, fun b => by
     rw [actor_setActor]; split
-    · rename_i h; rw [h.1]; exact hf _
-    · exact Or.inl rfl⟩
+    · rename_i h; rw [h.1]; exact (hf _).1
+    · exact Or.inl rfl, fun b => by
+    rw [actor_setActor]; split
+    · rename_i h; rw [h.1]; exact (hf _).2.1
+    · exact fun h => h, fun b => by
+    rw [actor_setActor]; split
+    · rename_i h; rw [h.1]; exact (hf _).2.2
+    · exact fun h => h⟩
 
 theorem shr_setImpl (k : K) (i : Nat) (f : Impl → Impl) (hf : ∀ x, (f x).sfk = x.sfk) : Shr k (k.setImpl i f) :=
-  ⟨List.Sublist.refl _, List.Sublist.refl _, rfl, by simp [K.setImpl, map_upd_inv _ _ _ _ hf], rfl, fun _ => Or.inl rfl⟩
+  ⟨List.Sublist.refl _, List.Sublist.refl _, rfl, by simp [K.setImpl, map_upd_inv _ _ _ _ hf], rfl, fun _ => Or.inl rfl, fun _ h => h, fun _ h => h⟩
 
 /-- generic introduction: same impls/actors tables, sublists of timers and heap -/
 theorem shr_of (k k' : K) (h1 : k'.timers.Sublist k.timers) (h2 : k'.heap.Sublist k.heap) (h3 : k'.nextT = k.nextT)
     (h4 : k'.impls = k.impls) (h5 : k'.actors = k.actors) : Shr k k' :=
-  ⟨h1, h2, h3, by rw [h4], by rw [h5], fun a => by unfold K.actor; rw [h5]; exact Or.inl rfl⟩
+  ⟨h1, h2, h3, by rw [h4], by rw [h5], fun a => by unfold K.actor; rw [h5]; exact Or.inl rfl,
+   fun a => by unfold K.actor; rw [h5]; exact fun h => h, fun a => by unfold K.actor; rw [h5]; exact fun h => h⟩
 
 theorem shr_answer (k : K) (a : Nat) : Shr k (k.answer a) := by
   unfold K.answer; split
-  · exact (shr_setActor k a _ (by intro _; exact Or.inl rfl)).trans (shr_of _ _ (List.Sublist.refl _) (List.Sublist.refl _) rfl rfl rfl)
+  · exact (shr_setActor k a _ (by fr_side)).trans (shr_of _ _ (List.Sublist.refl _) (List.Sublist.refl _) rfl rfl rfl)
   · exact shr_of _ _ (List.Sublist.refl _) (List.Sublist.refl _) rfl rfl rfl
-
-theorem shr_register (k : K) (i a : Nat) : Shr k (k.register i a) := by
-  unfold K.register
-  exact (shr_setImpl k i _ (by intro _; rfl)).trans (shr_setActor _ a _ (by intro _; first | exact Or.inl rfl | exact Or.inr (Or.inl rfl)))
 
 theorem shr_unregister (k : K) (i a : Nat) : Shr k (k.unregister i a) := by
   unfold K.unregister
-  exact (shr_setImpl k i _ (by intro _; rfl)).trans (shr_setActor _ a _ (by intro _; first | exact Or.inl rfl | exact Or.inr (Or.inl rfl)))
+  exact (shr_setImpl k i _ (by intro _; rfl)).trans (shr_setActor _ a _ (by fr_side))
 
 theorem shr_timerRemove (k : K) (id : Nat) : Shr k (k.timerRemove id) :=
   shr_of _ _ (List.filter_sublist) (List.Sublist.refl _) rfl rfl rfl
@@ -212,17 +225,17 @@ theorem unregisterFirst_eq (k : K) (i a : Nat) :
     cases h2 : ((((k.uf1 i a).uf2 a).uf3 i a).actor a).wannadie <;> simp
 
 theorem shr_uf1 (k : K) (i a : Nat) : Shr k (k.uf1 i a) :=
-  (shr_setImpl k i (fun x => { x with simcalls := x.simcalls.drop 1 }) (by intro _; rfl)).trans (shr_setActor _ a _ (by intro _; first | exact Or.inl rfl | exact Or.inr (Or.inl rfl)))
+  (shr_setImpl k i (fun x => { x with simcalls := x.simcalls.drop 1 }) (by intro _; rfl)).trans (shr_setActor _ a _ (by fr_side))
 
 theorem shr_uf2 (k : K) (a : Nat) : Shr k (k.uf2 a) := by
   unfold K.uf2; split
-  · exact (shr_timerRemove k _).trans (shr_setActor _ a _ (by intro _; first | exact Or.inl rfl | exact Or.inr (Or.inl rfl)))
+  · exact (shr_timerRemove k _).trans (shr_setActor _ a _ (by fr_side))
   · exact Shr.refl _
 
 theorem shr_uf3 (k : K) (i a : Nat) : Shr k (k.uf3 i a) := by
   unfold K.uf3; split
   · exact Shr.refl _
-  · exact (shr_foldl_unregister _ a k).trans (shr_setActor _ a _ (by intro _; first | exact Or.inl rfl | exact Or.inr (Or.inl rfl)))
+  · exact (shr_foldl_unregister _ a k).trans (shr_setActor _ a _ (by fr_side))
 
 theorem shr_ufAll (k : K) (i a : Nat) : Shr k (k.ufAll i a) :=
   ((shr_uf1 k i a).trans (shr_uf2 _ a)).trans (shr_uf3 _ i a)
@@ -256,7 +269,7 @@ theorem shr_finishOne (k : K) (i a : Nat) : Shr k (k.finishOne i a) := by
   · refine (shr_ufAll k i a).trans (Shr.trans ?_ (shr_answer _ a))
     refine (shr_setImpl _ i (fun x => { x with owners := x.owners.erase a }) (by intro _; rfl)).trans ?_
     split
-    · exact shr_setActor _ a _ (by intro _; exact Or.inl rfl)
+    · exact shr_setActor _ a _ (by fr_side)
     · exact Shr.refl _
   · exact shr_ufAll k i a
 
@@ -295,12 +308,12 @@ theorem shr_exitLoop (k : K) (a n : Nat) : Shr k (k.exitLoop a n) := by
     · rename_i i _ _
       simp only []
       refine Shr.trans ?_ (ih _)
-      exact (((shr_setActor k a _ (by intro _; exact Or.inl rfl)).trans (shr_cancel _ i)).trans (shr_setImpl _ i _ (by intro _; rfl))).trans (shr_finish _ i)
+      exact (((shr_setActor k a _ (by fr_side)).trans (shr_cancel _ i)).trans (shr_setImpl _ i _ (by intro _; rfl))).trans (shr_finish _ i)
 
 theorem shr_exit (k : K) (a : Nat) : Shr k (k.exit a) := by
   unfold K.exit
   simp only []
-  exact ((shr_setActor k a _ (by intro _; exact Or.inl rfl)).trans (shr_exitLoop _ a _)).trans (shr_foldl_cancel _ _)
+  exact ((shr_setActor k a _ (by fr_side)).trans (shr_exitLoop _ a _)).trans (shr_foldl_cancel _ _)
 
 theorem shr_addToRun (k : K) (a : Nat) : Shr k (k.addToRun a) := by
   unfold K.addToRun; split
@@ -329,17 +342,17 @@ theorem die_eq (k : K) (a : Nat) (failed : Bool) :
 theorem shr_dieTimers (k : K) (a : Nat) : Shr k (k.dieTimers a) := by
   have h1 : ∀ k : K, Shr k (k.dieK a) := by
     intro k; unfold K.dieK; split
-    · exact (shr_timerRemove k _).trans (shr_setActor _ a _ (by intro _; first | exact Or.inl rfl | exact Or.inr (Or.inl rfl)))
+    · exact (shr_timerRemove k _).trans (shr_setActor _ a _ (by fr_side))
     · exact Shr.refl _
   have h2 : ∀ k : K, Shr k (k.dieT a) := by
     intro k; unfold K.dieT; split
-    · exact (shr_timerRemove k _).trans (shr_setActor _ a _ (by intro _; first | exact Or.inl rfl | exact Or.inr (Or.inl rfl)))
+    · exact (shr_timerRemove k _).trans (shr_setActor _ a _ (by fr_side))
     · exact Shr.refl _
   exact (h1 k).trans (h2 _)
 
 theorem shr_die (k : K) (a : Nat) (failed : Bool) : Shr k (k.die a failed).1 := by
   rw [die_eq]
-  exact ((shr_foldl_cancel _ k).trans (shr_dieTimers _ a)).trans (shr_setActor _ a _ (by intro _; first | exact Or.inl rfl | exact Or.inr (Or.inl rfl)))
+  exact ((shr_foldl_cancel _ k).trans (shr_dieTimers _ a)).trans (shr_setActor _ a _ (by fr_side))
 
 
 /-! ### generic induction over an actor slice -/
@@ -505,15 +518,15 @@ theorem outer_eq (s : St) : outer s =
 theorem shr_fire (k : K) (t : Timer) : Shr k (k.fire t) := by
   unfold K.fire
   split
-  · exact ((shr_exit k _).trans (shr_setActor _ _ _ (by intro _; exact Or.inl rfl))).trans (shr_addToRun _ _)
+  · exact ((shr_exit k _).trans (shr_setActor _ _ _ (by fr_side))).trans (shr_addToRun _ _)
   · simp only []
     split
-    · exact shr_setActor _ _ _ (by intro _; exact Or.inl rfl)
-    · exact (((shr_setActor k _ _ (by intro _; exact Or.inl rfl)).trans (shr_unregister _ _ _)).trans
-        (shr_setActor _ _ _ (by intro _; exact Or.inl rfl))).trans (shr_answer _ _)
+    · exact shr_setActor _ _ _ (by fr_side)
+    · exact (((shr_setActor k _ _ (by fr_side)).trans (shr_unregister _ _ _)).trans
+        (shr_setActor _ _ _ (by fr_side))).trans (shr_answer _ _)
   · simp only []
-    exact (((shr_setActor k _ _ (by intro _; exact Or.inl rfl)).trans (shr_foldl_unregister _ _ _)).trans
-        (shr_setActor _ _ _ (by intro _; exact Or.inl rfl))).trans (shr_answer _ _)
+    exact (((shr_setActor k _ _ (by fr_side)).trans (shr_foldl_unregister _ _ _)).trans
+        (shr_setActor _ _ _ (by fr_side))).trans (shr_answer _ _)
 
 theorem shr_foldl_kill (l : List Nat) (k : K) : Shr k (l.foldl (fun k a => k.kill a) k) := by
   induction l generalizing k with
@@ -524,9 +537,9 @@ theorem shr_slice (a : Nat) (fuel : Nat) (k : K) (evs : List Ev) : Shr k (k.slic
   refine slice_ind a (fun k' => Shr k k') (fun k' => Shr k k') ?_ ?_ ?_ ?_ (fun _ h => h) fuel k evs (Shr.refl k)
   · intro k' f h hf
     refine h.trans (shr_setActor _ _ _ ?_)
-    cases hf <;> (intro _; exact Or.inl rfl)
+    cases hf <;> fr_side
   · intro k' r b h hr _
-    exact h.trans (shr_setActor _ _ _ (by intro _; exact Or.inr (Or.inr ⟨r, rfl, hr⟩)))
+    exact h.trans (shr_setActor _ _ _ (by intro _; exact ⟨Or.inr (Or.inr ⟨r, rfl, hr⟩), fun h => h, fun h => h⟩))
   · intro k' s h
     exact h.trans (shr_of _ _ (List.Sublist.refl _) (List.Sublist.refl _) rfl rfl rfl)
   · intro k' h
